@@ -799,6 +799,7 @@ func (cs *State) receiveRoutine(maxSteps int) {
 func (cs *State) handleMsg(mi msgInfo) {
 	cs.mtx.Lock()
 	defer cs.mtx.Unlock()
+	defer verifStep(cs, &mi, nil)
 	var (
 		added bool
 		err   error
@@ -899,6 +900,7 @@ func (cs *State) handleTimeout(ti timeoutInfo, rs cstypes.RoundState) {
 	// the timeout will now cause a state transition
 	cs.mtx.Lock()
 	defer cs.mtx.Unlock()
+	defer verifStep(cs, nil, &ti)
 
 	switch ti.Step {
 	case cstypes.RoundStepNewHeight:
